@@ -77,8 +77,82 @@ let show_toks l = sep "," show_tok l
 let show_item = function Model.IOp b -> "#" ^ zs b | Model.IPush [] -> "#0" | Model.IPush d -> "x" ^ hex_of d
 let nat_len l = big_int_of_int (List.length l)
 
+(* ---- transactions ---- *)
+let txin_of = function
+  | L [txid; vout; toks; seq] ->
+      { Model.ti_txid = bytes_of txid; ti_vout = z_of vout; ti_script = list_of tok_of toks; ti_seq = bytes_of seq }
+  | _ -> failwith "txin"
+let txout_of = function
+  | L [am; toks] -> { Model.to_amount = z_of am; to_script = list_of tok_of toks }
+  | _ -> failwith "txout"
+let tx_of = function
+  | L [A "tx"; ver; sw; ins; outs; lt; wits] ->
+      { Model.tx_version = bytes_of ver; tx_inputs = list_of txin_of ins; tx_outputs = list_of txout_of outs;
+        tx_locktime = bytes_of lt; tx_segwit = bool_of sw; tx_witnesses = list_of (list_of bytes_of) wits }
+  | _ -> failwith "tx"
+let is_null l = List.length l = 32 && List.for_all (fun z -> eq_big_int z zero_big_int) l
+(* the specification's view of the same object: scripts as bytes, numbers as numbers *)
+let stx_of (t : Model.tx) : Model.s_tx option =
+  let exception Bad in
+  try
+    let sin (i : Model.txin) =
+      let sb = if is_null i.Model.ti_txid then
+          (match i.Model.ti_script with Model.TData d :: _ -> d | _ -> raise Bad)
+        else (match Model.spec_assemble (List.map (function Model.TOp n -> Model.SOp n | Model.TInt n -> Model.SInt n
+                                                            | Model.TData d -> Model.SData d) i.Model.ti_script) with
+              | Some b -> b | None -> raise Bad) in
+      { Model.s_txid = i.Model.ti_txid; s_vout = i.Model.ti_vout; s_script = sb; s_seq = Model.le_val i.Model.ti_seq } in
+    let sout (o : Model.txout) =
+      match Model.spec_assemble (List.map (function Model.TOp n -> Model.SOp n | Model.TInt n -> Model.SInt n
+                                                  | Model.TData d -> Model.SData d) o.Model.to_script) with
+      | Some b -> { Model.s_amount = o.Model.to_amount; s_spk = b } | None -> raise Bad in
+    Some { Model.s_version = Model.le_val t.Model.tx_version; s_ins = List.map sin t.Model.tx_inputs;
+           s_outs = List.map sout t.Model.tx_outputs; s_locktime = Model.le_val t.Model.tx_locktime;
+           s_witness = if t.Model.tx_segwit then Some t.Model.tx_witnesses else None }
+  with Bad -> None
+let show_script_in (i : Model.txin) =
+  if is_null i.Model.ti_txid then
+    (match i.Model.ti_script with [Model.TData d] -> "cb" ^ hex_of d | l -> "cb?" ^ show_toks l)
+  else show_toks i.Model.ti_script
+let dump_tx (t : Model.tx) =
+  "v=" ^ hex_of t.Model.tx_version ^ ";sw=" ^ bs t.Model.tx_segwit
+  ^ ";in=" ^ sep "/" (fun (i : Model.txin) -> hex_of i.Model.ti_txid ^ ":" ^ zs i.Model.ti_vout ^ ":" ^ show_script_in i ^ ":" ^ hex_of i.Model.ti_seq) t.Model.tx_inputs
+  ^ ";out=" ^ sep "/" (fun (o : Model.txout) -> zs o.Model.to_amount ^ ":" ^ show_toks o.Model.to_script) t.Model.tx_outputs
+  ^ ";lt=" ^ hex_of t.Model.tx_locktime
+  ^ ";wit=" ^ sep "/" (fun st -> sep "." (fun d -> "x" ^ hex_of d) st) t.Model.tx_witnesses
+let tx_facts (t : Model.tx) =
+  opt hex_of (Model.tx_serialize t) ^ "|" ^ opt hex_of (Model.tx_to_bytes t false)
+  ^ "|" ^ (match Model.tx_to_bytes t false with None -> "ERR" | Some _ -> "@t")
+  ^ "|" ^ (match Model.tx_serialize t with None -> "ERR" | Some _ -> "@w")
+  ^ "|" ^ opt zs (Model.get_size t) ^ "|" ^ opt zs (Model.get_vsize t)
+let stx_facts (st : Model.s_tx) =
+  let full = Model.spec_serialize st and stripped = Model.spec_serialize_stripped st in
+  hex_of full ^ "|" ^ hex_of stripped ^ "|@t|@w|" ^ string_of_int (List.length full) ^ "|" ^ zs (Model.spec_vsize st)
+
 let dispatch (name : string) (args : sx list) : string =
   match name, args with
+  (* ---- C01 / C16 ---- *)
+  | "sha256", [b] -> hex_of (Model.sha256 (bytes_of b))
+  | "tx_facts", [t] -> tx_facts (tx_of t)
+  | "tx_ids", [t] -> let t = tx_of t in   (* ids through the Gallina SHA-256 (small transactions only) *)
+      opt hex_of (Model.get_txid Model.sha256 t) ^ "|" ^ opt hex_of (Model.get_wtxid Model.sha256 t)
+  | "stx_facts", [t] -> (match stx_of (tx_of t) with None -> "ERR" | Some st -> stx_facts st)
+  | "tx_sizes", [t] -> let t = tx_of t in
+      opt zs (Model.get_size t) ^ "," ^ opt zs (Model.get_vsize t) ^ ","
+      ^ opt (fun b -> string_of_int (List.length b)) (Model.tx_serialize t) ^ ","
+      ^ opt (fun b -> string_of_int (List.length b)) (Model.tx_to_bytes t false)
+  | "stx_sizes", [t] ->
+      (match stx_of (tx_of t) with None -> "ERR" | Some st ->
+        let full = List.length (Model.spec_serialize st) and stripped = List.length (Model.spec_serialize_stripped st) in
+        string_of_int full ^ "," ^ zs (Model.spec_vsize st) ^ "," ^ string_of_int full ^ "," ^ string_of_int stripped)
+  | "tx_parse", [raw] ->
+      (match Model.tx_from_raw (bytes_of raw) with
+       | None -> "ERR"
+       | Some t -> dump_tx t ^ "|" ^ tx_facts t)
+  | "tx_roundtrip", [t] ->
+      (match Model.tx_serialize (tx_of t) with
+       | None -> "ERR"
+       | Some raw -> (match Model.tx_from_raw raw with None -> "ERR" | Some t2 -> dump_tx t2 ^ "|" ^ tx_facts t2))
   (* ---- C18 ---- *)
   | "seq", [ty; v; blk] ->
       (match Model.mk_sequence (z_of ty) (z_of v) (bool_of blk) with
